@@ -64,28 +64,28 @@ type Message struct {
 	StatusCode    string
 	StatusMessage string
 	// assertion
-	HasAssertion    bool
-	AssertionID     string
-	AssertionIssuer string
-	AssertionInst   string
-	NameID          string
-	HasNameID       bool
-	NameIDFormat    string
-	SCInResponseTo  string
-	SCRecipient     string
-	HasSCRecipient  bool
-	SCNotOnOrAfter  string
-	SCMethod        string
-	CondNotBefore   string
+	HasAssertion     bool
+	AssertionID      string
+	AssertionIssuer  string
+	AssertionInst    string
+	NameID           string
+	HasNameID        bool
+	NameIDFormat     string
+	SCInResponseTo   string
+	SCRecipient      string
+	HasSCRecipient   bool
+	SCNotOnOrAfter   string
+	SCMethod         string
+	CondNotBefore    string
 	CondNotOnOrAfter string
-	Audiences       []string
-	Attributes      []Attribute
-	AttrValueCount  int
-	AuthnInstant    string
-	SessionIndex    string
-	SignatureCount  int // number of ds:Signature elements anywhere
-	AssertionSigned bool
-	AllIDs          []string
+	Audiences        []string
+	Attributes       []Attribute
+	AttrValueCount   int
+	AuthnInstant     string
+	SessionIndex     string
+	SignatureCount   int // number of ds:Signature elements anywhere
+	AssertionSigned  bool
+	AllIDs           []string
 }
 
 // Decoded is a fully decoded reply.
@@ -99,11 +99,11 @@ type Decoded struct {
 	Kind string // http-error | xml-body | soap | form | redirect | empty | other
 
 	// delivery
-	Target      string // form action (attribute value, character references decoded) / Location up to '?'
-	Location    string // full Location header
-	RawQuery    string // redirect: raw query string
-	Params      map[string]string   // redirect: percent-decoded parameters (first occurrence)
-	RawParams   map[string]string   // redirect: raw (still encoded) parameter values
+	Target      string            // form action (attribute value, character references decoded) / Location up to '?'
+	Location    string            // full Location header
+	RawQuery    string            // redirect: raw query string
+	Params      map[string]string // redirect: percent-decoded parameters (first occurrence)
+	RawParams   map[string]string // redirect: raw (still encoded) parameter values
 	ParamOrder  []string
 	RelayState  string
 	HasRelay    bool
